@@ -11,6 +11,7 @@ token attributes) and sent to the real engine.  The verdict comes from the real 
   * a handler of /internal, /status, /metrics, /health ran for a request sent to the public port   -> violation
 Differences between the model's prediction and the real verdict that the statement does not forbid are DRIFT."""
 import json, os, random, time
+from concurrent.futures import ThreadPoolExecutor
 from .. import vlib
 from ..vlib import Report, Inconclusive
 
@@ -42,6 +43,8 @@ def deviations(tok):
 
 def cause_of(c):
     """The attribute values that make the credential invalid: those that do so alone, else the deviating time claims, else all."""
+    if c.get("expzero"):
+        return "exp=0"
     if c["why"]:
         return ",".join("%s=%s" % (a, c["tok"][a]) for a in sorted(c["why"]))
     t = ",".join("%s=%s" % (a, c["tok"][a]) for a in ("iat", "life", "nbf") if c["tok"][a] != DEFAULT_TOK[a])
@@ -185,7 +188,13 @@ def run(prop, tier, seed, replay=None):
     predicted_bad = 0
     for fam in ("targets", "tokens", "claims"):
         base = "HttpGuard.claims" if fam == "claims" else "HttpGuard.%s.%s" % (fam, "quick" if quick else "thorough")
-        m = vlib.tlc("HttpGuard", base + ".cfg", workers=WORKERS, timeout=900, coverage=not quick)
+        same = constants_of(base + ".gen.cfg") == constants_of(base + ".cfg")
+        # the prescriptive and the descriptive run of a family go in parallel (4 workers each = 8 in total)
+        with ThreadPoolExecutor(max_workers=2) as ex:
+            fm = ex.submit(vlib.tlc, "HttpGuard", base + ".cfg", workers=WORKERS if same else WORKERS // 2, timeout=900, coverage=not quick)
+            fg = None if same else ex.submit(vlib.tlc, "HttpGuard", base + ".gen.cfg", workers=WORKERS // 2, timeout=900)
+            m = fm.result()
+            gres = fg.result() if fg else None
         if m.error:
             raise Inconclusive("TLC %s: %s" % (base, m.error))
         if m.violation:
@@ -196,11 +205,11 @@ def run(prop, tier, seed, replay=None):
             cover[a] = cover.get(a, 0) + n
         models.append(dict(cfg=base + ".cfg", states=m.distinct, transitions=m.generated, wall_s=round(m.wall, 1)))
         presc = {json.dumps([tkey(c), c["tok"]], sort_keys=True): (c["status"], c["reached"]) for c in m.printed}
-        if constants_of(base + ".gen.cfg") == constants_of(base + ".cfg"):
+        if same:
             g = m     # no deviation constant is switched on: descriptive = prescriptive, one TLC run serves both
             g.printed = [dict(c) for c in m.printed]
         else:
-            g = vlib.tlc("HttpGuard", base + ".gen.cfg", workers=WORKERS, timeout=900)
+            g = gres
             if not g.ok:
                 raise Inconclusive("TLC %s.gen: %s %s" % (base, g.violation, g.error))
         g.printed.sort(key=lambda c: json.dumps(c, sort_keys=True))
